@@ -41,7 +41,9 @@ class Replayer(object):
         self.store = BucketStore()
         self.cass = {}
         for c, (ro, tr, p) in combo.items():
-            self.cass[c] = make_s3_cassette(self.store, key_prefix=p, read_only=ro, transient=tr)
+            # one of the cassettes stores big recordings in the infrequent-access class (1 KB threshold)
+            extra = {'infrequent_access_kb_threshold': 1} if c == 'c2' else {}
+            self.cass[c] = make_s3_cassette(self.store, key_prefix=p, read_only=ro, transient=tr, **extra)
         self.day = datetime.datetime.today().strftime('%Y%m%d')
         self.ids = {}  # model unique name ('n1') -> real id
         self.recs = {}  # cassette -> (model id tuple, real recording)
@@ -87,8 +89,14 @@ class Replayer(object):
                     r = cas.create_new_recording(cat)
                     # the relative size of the two objects of a save varies: ordinary (data larger than metadata), or tiny
                     # data with large, highly compressible metadata (the stored full object is then the smaller one)
-                    if (zlib.crc32(repr([x['ev']['kind'] for x in beh]).encode()) + idx) % 2:
+                    sel = (zlib.crc32(repr([x['ev']['kind'] for x in beh]).encode()) + idx) % 3
+                    if sel == 0:
                         r.set_data('key', {'value': [1, 2, 3]})
+                        r.add_metadata({'m': 1})
+                    elif sel == 1:
+                        # a big, incompressible recording (above the infrequent-access threshold where one is set)
+                        brnd = random.Random(idx)
+                        r.set_data('key', {'value': ''.join(chr(brnd.randrange(33, 127)) for _ in range(6000))})
                         r.add_metadata({'m': 1})
                     else:
                         r.set_data('k', 1)
@@ -175,7 +183,10 @@ class Replayer(object):
         self.store.after = None
         # release anything still blocked
         for c in list(self.threads):
-            self._finish_save(c, crash=True)
+            if c.startswith('close-'):
+                self._finish_close(c[len('close-'):])
+            else:
+                self._finish_save(c, crash=True)
         return out
 
     def _foreign_recording(self):
@@ -414,9 +425,11 @@ def run(rep, tier, seed):
                         if len(rep.samples) < 3 and 'crash' in kinds:
                             rep.sample({'combination': name, 'behaviour': rr['summary']})
                         harness = [m for m in rr['mm'] if m['cat'] == 'harness']
-                        if harness:
-                            raise RuntimeError('harness failure: %s' % harness[0]['observed'])
                         bad = [m for m in rr['mm'] if m['cat'] in CATS]
+                        if harness and not bad:
+                            # (a step that cannot be driven after the code already left the model is a consequence, not a
+                            # machinery failure: the violations recorded before it are reported)
+                            raise RuntimeError('harness failure: %s' % harness[0]['observed'])
                         if bad:
                             rep.violation({'summary': '[%s] %s: %s (expected %s, observed %s)'
                                                       % (nm, bad[0]['cat'], bad[0]['note'], bad[0]['expected'][:150], bad[0]['observed'][:200]),
